@@ -84,7 +84,7 @@ CHECKS = {
   note=COMMON_NOTE + "Found and repaired while proving: LinkADRReq ChMaskCntl=4 indexed bank 9 of the 9-byte mask (remote panic in every region). Overflow checks and debug assertions are enabled in the harness build.",
   tech="machine-checked proof in Coq (invariant + totality of the whole receive and transmit path of the MAC model) + translator-regenerated tables + exhaustive-field MAC histories and exhaustive front-end event sequences under catch_unwind", ref="6 C04"),
  "C05": dict(
-  text="Coq theorems (Props/C05.v): for ALL last < 2^32 and wire < 2^16, next_fcnt_down accepts with n iff n is the unique counter = wire (mod 2^16) with last < n <= last+16384 "
+  text="Coq theorems (Props/C05.v): C05_max_payload_tables_match_rp002 -- every data rate of the regenerated regional tables has RP002's spreading factor, bandwidth and maximum MACPayload size (independent table in Spec/RP002.v; failed for EU433 DR2 = 123 until /repo fix 72dc2a1); for ALL last < 2^32 and wire < 2^16, next_fcnt_down accepts with n iff n is the unique counter = wire (mod 2^16) with last < n <= last+16384 "
        "and n < 2^32 (bit-level lemmas + linear arithmetic, no enumeration); never backwards, no replay; the session model acts on a frame exactly under the reference rule "
        "spec_accepts (well-formed, fits the data rate, reference MIC for the fresh counter) -- otherwise identity -- and then remembers n, decrypts with n, restarts the ADR count. "
        "Tied to the code: the real next_fcnt_down (hook) against the model on digests of all 2^16 wire values for `last` on a stride through +-70000 of every boundary class; "
